@@ -103,6 +103,8 @@ def make_member(rng, d, k, kinds, link=None):
             return shared_doc if url.split("#")[0].endswith("doc.json") else part
         handlers = {"http": serve}
         props["sd"] = {"$ref": site + "doc.json"}
+    if "huge-int" in kinds:
+        props["big"] = {"type": "string"}
     if "regex" in kinds:
         props["x1"] = {"pattern": "^a"}
         props["x2"] = {"patternProperties": {"^a": rng.choice(LEAVES), "b$": rng.choice(LEAVES)}, "additionalProperties": False}
@@ -162,6 +164,10 @@ def make_member(rng, d, k, kinds, link=None):
         nums = [Decimal("12.5"), Decimal("0.35"), Decimal("7"), Decimal("100.25"), 21, 7, Decimal("-3.3"), 100, Decimal("0.75")]
         inst["n1"] = rng.choice(nums)
         inst["n2"] = [rng.choice(nums) for _ in range(3)]
+    if "huge-int" in kinds and k == 0:
+        # (on the unchanged tree member 0's own run ends in the recorded C03 finding and the group is skipped; a group
+        #  that does run must leave the interpreter's conversion limit alone)
+        inst["big"] = 10 ** 5000
     if "shared-handler-document" in kinds:
         inst["sd"] = {"v": rng.choice([1, "s", [], None]), "w": [rng.choice([1, "s", "x", 20]), rng.choice([1, "s", None])]}
     if "verdicts" in kinds:
@@ -191,7 +197,7 @@ def make_member(rng, d, k, kinds, link=None):
 
 def group_plan(gseed):
     rng = random.Random(gseed)
-    kinds = set(rng.sample(["refs", "remote", "regex", "format", "types", "verdicts", "dollar-schema", "decimal", "shared-handler-document"], rng.randrange(1, 4)))
+    kinds = set(rng.sample(["refs", "remote", "regex", "format", "types", "verdicts", "dollar-schema", "decimal", "shared-handler-document", "huge-int"], rng.randrange(1, 4)))
     if "shared-handler-document" in kinds:
         kinds -= {"remote", "dollar-schema"}          # (they install handlers of their own for the same scheme)
     n = rng.choice([2, 2, 3])
